@@ -395,8 +395,12 @@ func (r *cacheOnWriteReader) Read(p []byte) (int, error) {
 		}
 		r.bytesSeen += int64(n)
 		if r.bytesSeen > r.maxObjectSizeBytes {
-			_ = r.pipeWriter.CloseWithError(errObjectLargerThanCacheThreshold)
-			r.pipeWriter = nil
+			// The writer is already gone after the first read that crossed the
+			// threshold; every later read of a large body comes through here again.
+			if r.pipeWriter != nil {
+				_ = r.pipeWriter.CloseWithError(errObjectLargerThanCacheThreshold)
+				r.pipeWriter = nil
+			}
 			r.cachePipeActive = false
 		} else if r.pipeWriter != nil {
 			if _, writeErr := r.pipeWriter.Write(p[:n]); writeErr != nil {
